@@ -532,3 +532,12 @@ def r9_interval(ctx: Ctx) -> None:
                            "rows or columns that overlap in exactly one cell have no common trunk any more, so staircase polygons are not decomposed", lineno=f.node.lineno)
     ctx.site(f.where, "empty exactly when max(lows) > min(highs)", comparisons_decided=decided)
     ctx.require(decided >= 1, "Interval.intersection: the comparison of max(lows) with min(highs) was not found")
+
+
+@rule("C15", "R10.loaded-as-module-recognised", "SHARED(C06)",
+      "the decomposition loaded as a module is recognised as a single-trunk orthogon for every kind of module (FloorSet blocks "
+      "are hard / fixed): the netlist's create_stog call sites do not depend on a kind flag -- C06.R10 evaluated for C15 "
+      "(seeded change C15-9)", floor=2)
+def shared_recognition(ctx: Ctx) -> None:
+    from .C06 import recognition_for_every_kind
+    recognition_for_every_kind(ctx)
